@@ -28,6 +28,9 @@ pub fn exec_oracle(kind: &str, fields: &[&str]) -> String {
         "S_C08N" => oracle_c08n(fields),
         "S_C08O" => oracle_c08o(fields),
         "S_C08D" => oracle_c08d(fields),
+        "S_C09" => oracle_c09(fields),
+        "S_C09E" => oracle_c09e(fields),
+        "S_C09N" => oracle_c09n(fields),
         "S_C15" => oracle_c15(fields[0], &crate::exec::unhex(fields[1]), fields[2]),
         "S_C15F" => oracle_c15f(fields),
         "S_C15A" => oracle_c15a(fields),
@@ -2045,4 +2048,129 @@ fn oracle_c15a(fields: &[&str]) -> String {
         return format!("oracle FAIL only {checked} nodes of the .gsa twin could be compared");
     }
     "oracle pass".to_string()
+}
+
+/// any definition, any coordinates, both directions: a handle or an error, then a count — no
+/// panic (caught by the worker), no hang (timed by the supervisor)
+fn oracle_c09(fields: &[&str]) -> String {
+    let Some((spec, rest)) = crate::exec::parse_ctx(fields) else {
+        return "bad-case".to_string();
+    };
+    if rest.len() != 2 {
+        return "bad-case".to_string();
+    }
+    let def = unescape(rest[0]);
+    let data = parse_data(rest[1]);
+    crate::exec::with_ctx(&spec, |ctx| {
+        let op = match ctx.op(&def) {
+            Ok(op) => op,
+            Err(e) => return format!("oracle pass err {}", err_class(&e)),
+        };
+        let n = data.len();
+        let mut chain = data.clone();
+        for fwd in [true, false, false, true] {
+            let dir = || if fwd { Fwd } else { Inv };
+            let mut d = data.clone();
+            match ctx.apply(op, dir(), &mut d) {
+                Ok(k) if k > n => return format!("oracle FAIL {k} successes reported for {n} tuples"),
+                _ => {}
+            }
+            if d.len() != n {
+                return "oracle FAIL the operand set changed length".to_string();
+            }
+            // ... and on what the previous call left behind
+            let _ = ctx.apply(op, dir(), &mut chain);
+        }
+        // the other container types go through the same code with other element accessors
+        let mut d2: Vec<Coor2D> = data.iter().map(|c| Coor2D([c[0], c[1]])).collect();
+        let _ = ctx.apply(op, Fwd, &mut d2);
+        let mut d32: Vec<Coor32> = data.iter().map(|c| Coor32([c[0] as f32, c[1] as f32])).collect();
+        let _ = ctx.apply(op, Inv, &mut d32);
+        let mut empty: Vec<Coor4D> = vec![];
+        match ctx.apply(op, Fwd, &mut empty) {
+            Ok(0) | Err(_) => {}
+            Ok(k) => return format!("oracle FAIL {k} successes reported for an empty operand set"),
+        }
+        "oracle pass ok".to_string()
+    })
+}
+
+/// the public functions of the ellipsoid module on any shape and any arguments
+fn oracle_c09e(fields: &[&str]) -> String {
+    let a = parse_f(fields[0]);
+    let f = parse_f(fields[1]);
+    let x: Vec<f64> = fields[2].split(',').map(parse_f).collect();
+    let e = Ellipsoid::new(a, f);
+    let mut acc = 0u64;
+    let mut eat = |v: f64| acc = acc.wrapping_add(v.to_bits());
+    eat(e.semimajor_axis());
+    eat(e.semiminor_axis());
+    eat(e.semimedian_axis());
+    eat(e.flattening());
+    eat(e.second_flattening());
+    eat(e.third_flattening());
+    eat(e.aspect_ratio());
+    eat(e.linear_eccentricity());
+    eat(e.eccentricity());
+    eat(e.eccentricity_squared());
+    eat(e.second_eccentricity());
+    eat(e.second_eccentricity_squared());
+    eat(e.polar_radius_of_curvature());
+    eat(e.normalized_meridian_arc_unit());
+    eat(e.rectifying_radius());
+    eat(e.rectifying_radius_bowring());
+    eat(e.meridian_quadrant());
+    let rect = e.coefficients_for_rectifying_latitude_computations();
+    let conf = e.coefficients_for_conformal_latitude_computations();
+    let auth = e.coefficients_for_authalic_latitude_computations();
+    for &v in &x {
+        eat(e.prime_vertical_radius_of_curvature(v));
+        eat(e.meridian_radius_of_curvature(v));
+        eat(e.meridian_latitude_to_distance(v));
+        eat(e.meridian_distance_to_latitude(v));
+        eat(e.latitude_geographic_to_geocentric(v));
+        eat(e.latitude_geocentric_to_geographic(v));
+        eat(e.latitude_geographic_to_reduced(v));
+        eat(e.latitude_reduced_to_geographic(v));
+        eat(e.latitude_geographic_to_isometric(v));
+        eat(e.latitude_isometric_to_geographic(v));
+        eat(e.latitude_geographic_to_rectifying(v, &rect));
+        eat(e.latitude_rectifying_to_geographic(v, &rect));
+        eat(e.latitude_geographic_to_conformal(v, &conf));
+        eat(e.latitude_conformal_to_geographic(v, &conf));
+        eat(e.latitude_geographic_to_authalic(v, &auth));
+        eat(e.latitude_authalic_to_geographic(v, &auth));
+        eat(e.somigliana_gravity(v, None, None));
+        eat(e.somigliana_gravity(v, Some(x[0]), Some(x[1])));
+        eat(e.cassinis_gravity_1930(v));
+        eat(e.jeffreys_gravity_1948(v));
+        eat(e.grs67_gravity(v));
+        eat(e.grs80_gravity(v));
+        eat(e.cassinis_height_correction(v, x[1]));
+        eat(e.grs67_height_correction(v, x[2]));
+        eat(e.welmec(v, x[3]));
+    }
+    let p = Coor4D([x[0], x[1], x[2], x[3]]);
+    let q = Coor4D([x[2], x[3], x[4], x[5]]);
+    for c in [e.cartesian(&p), e.geographic(&p), e.geographic(&e.cartesian(&p)), e.geodesic_fwd(&p, x[4], x[5]), e.geodesic_inv(&p, &q), e.geodesic_inv(&p, &p)] {
+        for i in 0..4 {
+            eat(c[i]);
+        }
+    }
+    eat(e.distance(&p, &q));
+    format!("oracle pass {:x}", acc & 0xf)
+}
+
+/// `Ellipsoid::named` on any text
+fn oracle_c09n(fields: &[&str]) -> String {
+    let name = unescape(fields[0]);
+    match Ellipsoid::named(&name) {
+        Ok(e) => {
+            // a named ellipsoid is then used without further ado
+            let _ = e.cartesian(&Coor4D([0.2, 0.9, 10., 0.]));
+            let _ = e.meridian_latitude_to_distance(0.9);
+            "oracle pass ok".to_string()
+        }
+        Err(_) => "oracle pass err".to_string(),
+    }
 }
